@@ -1132,7 +1132,11 @@ class Scores:
             metric = getattr(type(self), metric)
 
         m = np.asarray(metric(self, **kwargs))
-        res = np.empty(shape=(config.nb_samples, *m.shape), dtype=m.dtype)
+        # The metric of a sample need not have the dtype it has on the original scores
+        # (e.g. a Python int 0 there and a float elsewhere), so we do not store the
+        # replicates in an integer or boolean array.
+        dtype = np.result_type(m.dtype, float) if m.dtype.kind in "biu" else m.dtype
+        res = np.empty(shape=(config.nb_samples, *m.shape), dtype=dtype)
         for j in range(config.nb_samples):
             sample = self.bootstrap_sample(config=config)
             res[j] = metric(sample, **kwargs)
